@@ -124,6 +124,24 @@ pub async fn run_case(c: Case) -> Result<CaseInfo, Failure> {
     if !stops.is_empty() || eut.done().is_some() {
         return Err(fail(&c, "connection-ended", format!("a valid stream ended the connection; {}", describe())));
     }
+    // pieces handed to readers that take the payload piece by piece as it arrives: none but the last of a publish is
+    // smaller than the configured minimum (empty pieces aside)
+    if c.min_chunk > 0 {
+        let pieces = app.pieces.borrow().clone();
+        for (i, p) in c.pubs.iter().enumerate() {
+            if p.read != ReadPlan::Eager {
+                continue;
+            }
+            let mine: Vec<usize> = pieces.iter().filter(|(s, _)| *s == i as u32).map(|(_, l)| *l).collect();
+            let total: usize = mine.iter().sum();
+            if total != p.size as usize {
+                continue; // judged below
+            }
+            if let Some(k) = (0..mine.len().saturating_sub(1)).find(|k| mine[*k] != 0 && (mine[*k] as u32) < c.min_chunk) {
+                return Err(fail(&c, "piece-below-minimum", format!("publish #{i} ({} bytes): the reader was handed pieces {mine:?}; piece {k} is not the last one and smaller than the configured min_chunk_size {}; {}", p.size, c.min_chunk, describe())));
+            }
+        }
+    }
     let enters = app.pub_enters();
     if enters.len() != c.pubs.len() {
         return Err(fail(&c, "announced-count", format!("{} publishes sent, {} handler invocations; {}", c.pubs.len(), enters.len(), describe())));
